@@ -223,7 +223,8 @@ def run(ctx):
                         'mpc: S and M duplicate-free and disjoint, T with |S| rows, g of length |S| (what mpc checks or np.setdiff1d assumes)']
     ctx.cov['rule'] = ('random square CSR systems n=1..8 (thorough: ..12): empty rows, explicit zeros, unsorted columns, '
                        'unsymmetric patterns; duplicate-free splits in random order given as I or D, as int32/int64 arrays, '
-                       'DofsView or dict of views of a real basis; vector / matrix / absent right-hand sides; overwrite on/off. '
+                       'DofsView or dict of views of a real basis; vector / matrix / absent right-hand sides; overwrite on/off; CSR storage with '
+                       'duplicate entries (oracle only); mpc with all defaults; default and given epsilon, zero constrained diagonal. '
                        'non-trivial = n>=2, 0<|D|<n and at least one stored off-diagonal entry; distinct by content')
     ctx.ensure_static()
     # 1. regenerate
@@ -588,6 +589,52 @@ def check_penalize_limit(ctx, state, n, csr, b, x, D, rng, zero_diag=False):
                  dict(rep, penalized_solution=yp.tolist(), condensed_solution=yc.tolist()))
 
 
+def check_noncanonical(ctx, n, rng):
+    """CSR storage with DUPLICATE entries inside a row (outside the model's assumption): dense semantics of the
+    results of enforce / penalize / condense against the property statement (exact integers)."""
+    from skfem.utils import enforce, penalize, condense
+    ip, ix, d = [0], [], []
+    for i in range(n):
+        k = rng.randint(0, n + 2)
+        cols = [rng.randrange(n) for _ in range(k)]
+        ix += cols
+        d += [rng.choice([-3, -2, -1, 0, 1, 2, 3]) for _ in cols]
+        ip.append(len(ix))
+    A = to_scipy(ip, ix, d, n)
+    dense = dense_of(ip, ix, d, n)
+    S, which = rand_split(rng, n)
+    D = S if which == 'D' else [i for i in range(n) if i not in S]
+    I = [i for i in range(n) if i not in D] if which == 'D' else S
+    b = [rng.randint(-9, 9) for _ in range(n)]
+    x = [rng.randint(-9, 9) for _ in range(n)]
+    bb, xx, Sarr = np.array(b, dtype=float), np.array(x, dtype=float), idx_array(rng, S)
+    rep = {'fn': 'non-canonical CSR', 'n': n, 'indptr': ip, 'indices': ix, 'data': d, 'b': b, 'x': x, which: S}
+    ctx.count(('noncanonical', n, ip, ix, d, b, x, S, which), nontrivial=0 < len(D) < n)
+    before = checksum(A, bb, xx, Sarr)
+    has_empty_D = any(ip[dd] == ip[dd + 1] for dd in D)
+    try:
+        A2, b2 = enforce(A, bb, xx, diag=2.0, **{which: Sarr})
+        eA = [[(2 if j == i else 0) for j in range(n)] if i in D else dense[i] for i in range(n)]
+        eb = [x[i] if i in D else b[i] for i in range(n)]
+        if [[as_int(v) for v in r] for r in A2.toarray()] != eA or ints(b2) != eb:
+            ctx.fail(F6_KEY if has_empty_D else 'enforce:noncanonical', 'enforce on a CSR matrix with duplicate entries: wrong dense result', rep)
+        A3, b3 = penalize(A, bb, xx, epsilon=0.25, **{which: Sarr})
+        eA = [[(4 if (j == i and i in D) else dense[i][j]) for j in range(n)] for i in range(n)]
+        eb = [4 * x[i] if i in D else b[i] for i in range(n)]
+        if [[as_int(v) for v in r] for r in A3.toarray()] != eA or ints(b3) != eb:
+            ctx.fail('penalize:noncanonical', 'penalize on a CSR matrix with duplicate entries: wrong dense result', rep)
+        AII, bI, xr, Ir = condense(A, bb, xx, **{which: Sarr})
+        Il = [int(i) for i in Ir]
+        eII = [[dense[i][j] for j in Il] for i in Il]
+        ebI = [b[i] - sum(dense[i][j] * x[j] for j in D) for i in Il]
+        if sorted(Il) != sorted(I) or ([[as_int(v) for v in r] for r in AII.toarray()] if Il else []) != eII or ints(bI) != ebI:
+            ctx.fail('condense:noncanonical', 'condense on a CSR matrix with duplicate entries: wrong dense result', rep)
+    except Exception as e:  # noqa: BLE001
+        ctx.fail(F6_KEY if has_empty_D else 'noncanonical:raises:' + type(e).__name__, f'{type(e).__name__}: {e} on a CSR matrix with duplicate entries', rep)
+    if checksum(A, bb, xx, Sarr) != before:
+        ctx.fail('no_mutation:noncanonical', 'an argument was modified (CSR with duplicate entries)', rep)
+
+
 def check_expand(ctx, cases, n, x, I, z, X):
     from skfem.utils import solve_linear, solve_eigen
     xx = np.array(x, dtype=float)
@@ -706,6 +753,8 @@ def _gen_random(ctx, cases, state):
             check_penalize_limit(ctx, state, n, csr, b, x, D, rng)
             if it % 4 == 0:
                 check_penalize_limit(ctx, state, n, csr, b, x, D, rng, zero_diag=True)
+    for it in range(ctx.n(60, 400)):
+        check_noncanonical(ctx, rng.randint(1, nmax), rng)
     for it in range(ctx.n(15, 80)):
         check_eigen_pipeline(ctx, state, rng.randint(3, nmax) if it % 3 else rng.randint(10, 14), rng)
     # positions: the generated arithmetic vs the implementation's lines executed verbatim is not observable directly;
